@@ -28,7 +28,7 @@ CHECKS = {
     ),
     "C15": dict(
         level="exploration",
-        rule="rapid draws blobs (nil, empty, 1 byte, odd, even, chunk-like tokens, up to 70 KB) for every subset of ICC/EXIF/XMP x {lossy, lossy+alpha, lossless, lossless+alpha stills; 1-4 frame lossy/lossless animations}; "
+        rule="rapid draws blobs (nil, empty, 1 byte, odd, even, chunk-like tokens, up to 70 KB) for every subset of ICC/EXIF/XMP x every source image type and placement x {lossy, lossy+alpha, lossless, lossless+alpha stills; 1-4 frame lossy/lossless animations}; "
              "oracle: riffwalk validates; blobs byte-exact in the file, via Demuxer.GetChunk and via animation.DecodeBytes; flags <=> chunks; image/ALPH chunk bytes and decoded pixels/playback identical with and without metadata; thorough adds the 100 MB cap (+1 rejected, exactly 100 MB accepted and read back). "
              "Non-trivial: >=1 non-empty blob; distinct = (kind, subset+parities, codec, alpha, frame count).",
         assumptions=["an empty (zero-length) blob may be stored as an empty chunk or omitted; both accepted"],
@@ -61,7 +61,7 @@ CHECKS = {
     ),
     "C06": dict(
         level="exploration",
-        rule="rapid draws pictures (incl. non-multiples of 16, >=4 macroblock rows) x the lossy option product (targets, passes, presets, segments, partitions, sharp YUV, dithering) x GOMAXPROCS {1,2,3,4,8} (serial and row-parallel encoder); the verif-tagged FrameEncoded hook copies the encoder's reconstruction after every pass (last one kept). "
+        rule="rapid draws pictures (incl. non-multiples of 16, >=4 macroblock rows, and 5% large pictures of 400-640 x 336-640 = 525-1600 macroblocks made of one texture with 1-3 outlier blocks, so that rounded segment/skip probabilities saturate) x the lossy option product (targets, passes, presets, segments, partitions, sharp YUV, dithering) x GOMAXPROCS {1,2,3,4,8} (serial and row-parallel encoder); the verif-tagged FrameEncoded hook copies the encoder's reconstruction after every pass (last one kept). "
              "Oracle: vendored x/image/vp8 with the loop filter skipped == reconstruction; package decoder with NoLoopFilter hook == reconstruction; when the stream's filter level is 0 the plain public Decode == reconstruction; decoded size == source size. "
              "Non-trivial: >=2 colours; distinct = (serial/parallel path, Method, segments, filter off, pass count, sharp, target mode, preprocessing).",
         assumptions=["the hook observes the planes the encoder used as prediction reference (encoder writes its reconstruction into its Y/U/V planes)", "vendored x/image/vp8 + SkipLoopFilter switch as independent pre-deblocking decoder"],
@@ -69,7 +69,7 @@ CHECKS = {
     ),
     "C05": dict(
         level="exploration",
-        rule="inputs: 1-4 rapid-drawn mutations (bit flips, hostile byte values, chunk size-field rewrites incl. 0/1/odd/len+-k/0x7fffffff/0xffffffff, dimension rewrites, chunk delete/duplicate/move, FourCC swaps, truncation, random tails, inserts, 0x00/0xff runs, splices across seeds) of ~25 small valid files (package encoder: lossy 1/4/8 partitions, lossy+alpha raw/compressed/quantised, lossless, metadata; animation encoder lossless/lossy/mixed; muxer; /verif's VP8 generator; libwebp-written; repo testdata), random bytes behind a valid magic, and container programs with lying size fields. "
+        rule="inputs: 1-4 rapid-drawn mutations (bit flips, hostile byte values, chunk size-field rewrites incl. 0/1/odd/len+-k/0x7fffffff/0xffffffff, dimension rewrites, chunk delete/duplicate/move, FourCC swaps, truncation, random tails, inserts, 0x00/0xff runs, splices across seeds) of ~25 small valid files (package encoder: lossy 1/4/8 partitions, lossy+alpha raw/compressed/quantised, lossless, metadata; animation encoder lossless/lossy/mixed; muxer; /verif's VP8 and VP8L generators incl. predictor modes 14/15 and 15-bit codes; libwebp-written; repo testdata), freshly generated free-mode VP8L/VP8 streams (intact or mutated), random bytes behind a valid magic, and container programs with lying size fields. "
              "Every input goes through Decode, DecodeConfig, GetFeatures, image.Decode/DecodeConfig, animation.DecodeBytes+DecodeFrames+DecodeFramesParallel+AnimDecoder playback, mux.NewDemuxer+Frame(i)+GetChunk+iterator. "
              "Oracle: no panic, returns within a watchdog limit of 30 s + 1 ms per 20,000 declared pixels (an expiry must reproduce with six times that limit before it counts), well-formed results (positive bounds, buffers large enough), bytes allocated <= 64 MiB + 64 x (input length + 4 x declared pixels). "
              "Non-trivial: input still carries the RIFF/WEBP magic; distinct = (source, seed, mutation kinds, which entry points accepted). Thorough adds a native coverage-guided fuzz campaign over the same entry points.",
@@ -114,7 +114,7 @@ CHECKS = {
     ),
     "C14": dict(
         level="exploration",
-        rule="rapid draws Muxer call sequences (1-14 ops): AddFrame with real VP8/VP8L bitstreams from a pool of 35 (lossy, lossless, lossy with compressed and raw ALPH prefix, VP8L with alpha bit; odd and even payload lengths) and FrameOptions (nil; offsets even/odd; durations incl. 0, >2^24-1 and negative = documented clamping; blend; dispose), SetFrameDisposeMode/SetFrameDuration on valid and invalid indices, SetCanvasSize (incl. 0, clamped values), SetLoopCount (clamped), SetBackgroundColor, SetICCProfile/SetEXIF/SetXMP/AddChunk with nil/empty/odd/even/chunk-like blobs; then Assemble. "
+        rule="rapid draws Muxer call sequences (1-14 ops; an AddFrame may be repeated 200-10001 times: long animations around the 1000-chunk and 10000-frame limits): AddFrame with real VP8/VP8L bitstreams from a pool of 35 (lossy, lossless, lossy with compressed and raw ALPH prefix, VP8L with alpha bit; odd and even payload lengths) and FrameOptions (nil; offsets even/odd; durations incl. 0, >2^24-1 and negative = documented clamping; blend; dispose), SetFrameDisposeMode/SetFrameDuration on valid and invalid indices, SetCanvasSize (incl. 0, clamped values), SetLoopCount (clamped), SetBackgroundColor, SetICCProfile/SetEXIF/SetXMP/AddChunk with nil/empty/odd/even/chunk-like blobs; then Assemble. "
              "Oracle: a model of the muxer state predicts acceptance and structure. Accepted: riffwalk validates the file; mux.Demuxer AND container.Parser return the same bitstreams and ALPH payloads byte for byte, offsets rounded down to even, clamped durations, blend/dispose, loop count, background colour, canvas, metadata; GetFeatures agrees; stills decode to the same pixels as their bitstream alone. Rejected: an error, and nothing that parses as a complete file was written; consistent states must not be rejected, frames outside the canvas must be. "
              "Non-trivial: alpha-prefixed frame, >=2 frames or metadata; distinct = (animated, frame count, setters used, payload parities, fits).",
         assumptions=["offsets non-negative; canvas area kept below the package's 2^30-pixel reader cap; for stills with an explicit canvas different from the picture the strict still-canvas rule of riffwalk is not applied"],
@@ -175,7 +175,7 @@ CHECKS = {
     ),
     "C03": dict(
         level="exploration",
-        rule="two stream sources. (gen) VP8L bitstreams written by /verif's own generator from the lossless specification: any subset and order of the four transforms (each at most once) with tile bits 2-9, palette sizes {1,2,3,4,5,16,17,100,255,256} (all packings), predictor modes 0-13 per tile (rarely 14/15), random cross-colour multipliers; colour cache bits 0-11; optional meta prefix image with prefix bits 2-9 and 1-30 groups incl. an unreferenced group; prefix codes in simple (1-2 symbols, 1- and 8-bit form) and normal form (complete length-limited codes <=15 from random trees, single-symbol codes, code-length code with 16/17/18 repeat tokens and the max_symbol form); pixel stream of literals, colour-cache hits and backward references with every plane distance code 1-120 and linear distances, lengths up to 4096 incl. overlapping copies; sub-images with their own caches and references. (libwebp) pictures encoded by libwebp 1.2.4's lossless encoder. "
+        rule="two stream sources. (gen) VP8L bitstreams written by /verif's own generator from the lossless specification: any subset and order of the four transforms (each at most once) with tile bits 2-9, palette sizes {1,2,3,4,5,16,17,100,255,256} (all packings), predictor modes 0-13 per tile (rarely 14/15), random cross-colour multipliers; colour cache bits 0-11; optional meta prefix image with prefix bits 2-9 and 1-1100 groups incl. an unreferenced group; prefix codes in simple (1-2 symbols, 1- and 8-bit form, either transmission order) and normal form (complete length-limited codes <=15 from balanced, random and deep trees - deep: padded with never-occurring symbols so that 13-15-bit codewords are used by the occurring symbols -, single-symbol codes, code-length code with 16/17/18 repeat tokens and the max_symbol form); pixel stream of literals, colour-cache hits and backward references with every plane distance code 1-120 and linear distances, lengths up to 4096 incl. overlapping copies (a long-copy class draws lengths uniformly up to 4096); sub-images with their own caches and references. (libwebp) pictures encoded by libwebp 1.2.4's lossless encoder. "
              "Oracle: webp.Decode must accept and return exactly the ARGB that libwebp AND x/image/vp8l return (both must accept and agree; otherwise the case is inconclusive); for libwebp-encoded pictures also the source pixels. "
              "Non-trivial: stream has a transform, backward reference, cache hit or more than one group; distinct = (transform order with tile bits/palette class, cache bits, meta bits/groups, code style, feature set).",
         assumptions=["libwebp 1.2.4 and golang.org/x/image/vp8l agreeing with each other define the decoded pixels", "streams are 'free mode': what they decode to is defined by the references, not known by construction"],
